@@ -156,10 +156,12 @@ def run_impl(case):
     vals = case["vals"]
     elems, ident = {}, {}
 
-    def el(i):
+    def el(i, **links):
         if i not in elems:
             v = vals[i] if i < len(vals) else i
-            e = ecls(data=[v])
+            # with `ctor_links` a new element is built with the constructor's own previous= / next= arguments
+            # naming the members it is about to stand between: the insert operation sets the links anyway
+            e = ecls(data=[v], **(links if case.get("ctor_links") else {}))
             elems[i] = e
             ident[id(e)] = i
         return elems[i]
@@ -172,13 +174,15 @@ def run_impl(case):
         try:
             name = op[0]
             if name == "prepend":
-                c.preppend(el(op[1]))
+                c.preppend(el(op[1], next=c.first))
             elif name == "append":
-                c.append(el(op[1]))
+                c.append(el(op[1], previous=c.last))
             elif name == "add_before":
-                c.add_before(el(op[1]), el(op[2]))
+                a = el(op[1])
+                c.add_before(a, el(op[2], previous=a.previous, next=a))
             elif name == "add_after":
-                c.add_after(el(op[1]), el(op[2]))
+                a = el(op[1])
+                c.add_after(a, el(op[2], previous=a, next=a.next))
             elif name == "remove":
                 c.remove(el(op[1]))
             obs.append(observe(c, ident, fuel))
@@ -223,6 +227,8 @@ def features(case, obs):
     f += [f"op={op[0]}" for op in case["ops"][:40]]
     if len(set(case["vals"])) < len(case["vals"]):
         f.append("value_equal_members")
+    if case.get("ctor_links"):
+        f.append("elements_built_with_link_arguments")
     return f
 
 
@@ -421,10 +427,15 @@ def cases_of(chunk):
                 yield {"family": chunk["family"], "vals": list(range(nid)), "ops": h}
                 if h and i % 3 == 0:
                     yield {"family": chunk["family"], "vals": [0] * nid, "ops": h}
+                if h and i % 4 == 1:
+                    yield {"family": chunk["family"], "vals": list(range(nid)), "ops": h, "ctor_links": True}
     elif k == "random":
         rng = random.Random(chunk["seed"])
         for _ in range(chunk["n"]):
-            yield random_history(rng, rng.randrange(1, chunk["len"] + 1), chunk["family"])
+            c = random_history(rng, rng.randrange(1, chunk["len"] + 1), chunk["family"])
+            if rng.random() < 0.3:
+                c["ctor_links"] = True
+            yield c
 
 
 def shrinks(case):
